@@ -50,10 +50,24 @@ func execSign(f []string) string {
 	}
 	fetcher := mkFetcher(tx, spent)
 	var sh *txscript.TxSigHashes
-	if f[2] == "c" {
+	if strings.HasPrefix(f[2], "c") {
 		sh = txscript.NewTxSigHashes(tx, fetcher)
 	}
-	vm, err := txscript.NewEngine(spent[idx].PkScript, tx, idx, flagsFor(f[1]), nil, sh,
+	// "cs"/"ns": a signature cache shared with a preceding verification of the ORIGINAL signed
+	// transaction (which populates it): the answer for the mutated one must not change
+	var sc *txscript.SigCache
+	if strings.HasSuffix(f[2], "s") {
+		sc = txscript.NewSigCache(100)
+		otx, osp := decTx(f[5]), decSpent(f[6])
+		if idx < len(otx.TxIn) && idx < len(osp) {
+			of := mkFetcher(otx, osp)
+			if vm, err := txscript.NewEngine(osp[idx].PkScript, otx, idx, flagsFor(f[1]), sc,
+				txscript.NewTxSigHashes(otx, of), osp[idx].Value, of); err == nil {
+				_ = vm.Execute()
+			}
+		}
+	}
+	vm, err := txscript.NewEngine(spent[idx].PkScript, tx, idx, flagsFor(f[1]), sc, sh,
 		spent[idx].Value, fetcher)
 	if err != nil {
 		return "failed"
@@ -488,6 +502,9 @@ func genSign(g *core.Gen) {
 			cache := "c"
 			if r.Bool() {
 				cache = "n" // no midstate supplied: the engine computes it itself
+			}
+			if r.Chance(1, 3) {
+				cache += "s" // with a signature cache populated by verifying the original
 			}
 			cls := "sign-" + kind
 			if mk != "none" {
